@@ -148,6 +148,21 @@ def generate(rseed, tier, idx):
                     if g.random() < 0.15:
                         op["show"] = True
                 ops.append(op)
+        if g.random() < 0.35:
+            # one ColorPair object re-used for a burst of calls with different settings (retry flows such as
+            # "default mode, then relaxed", "readable, then very readable"), on a pair that is hard to fix
+            bg = gen.rand_rgb(g)
+            trgb, _ = gen.pick_text(g, bg, 4.5, g.choice(("hard", "same", "mid", "fix")))
+            slot = nslots
+            nslots += 1
+            burst = [{"op": "newpair", "slot": slot, "t": enc(gen.spell(g, trgb, gen.CSS_SPELLINGS + gen.API_ONLY_SPELLINGS)[0]),
+                      "b": enc(gen.spell(g, bg, gen.CSS_SPELLINGS)[0]), "large": g.random() < 0.3}]
+            for _ in range(g.randint(3, 6)):
+                burst.append({"op": g.choice(("make_on", "make_on", "make_on", "readable_on")), "slot": slot})
+                if burst[-1]["op"] == "make_on":
+                    burst[-1].update(mode=g.choice((0, 1, 1, 2, 2, None)), vr=g.random() < 0.4)
+            pos = g.randrange(len(ops) + 1)
+            ops[pos:pos] = burst
         if g.random() < 0.2:
             # a flood of cheap, distinct, already-readable pairs: fills or evicts any bounded cache between two probes
             k = g.randrange(1 << 20)
